@@ -16,6 +16,7 @@ pub mod c17;
 pub mod c18;
 pub mod c19;
 pub mod c20;
+pub mod tables;
 
 pub fn run(ctx: &mut Ctx, suite: &str) {
     match suite {
@@ -52,6 +53,7 @@ pub fn run(ctx: &mut Ctx, suite: &str) {
         "c08s" => c12::run_stall(ctx),
         "c19" => c19::run(ctx),
         "c20" => c20::run(ctx),
+        "tables" => tables::gen(),
         _ => {
             eprintln!("unknown suite {suite}");
             std::process::exit(2);
